@@ -1402,6 +1402,25 @@ func (d *c05Run) packetBattery(pkt *packet.Packet, pat psi.PAT) bool {
 			}
 		}
 	}
+	if packet.IsPat(pkt) {
+		// the 188-byte carrier with the payload squeezed out by an adaptation field: lengths
+		// around the point where nothing, or less than nothing, is left for the table
+		for _, l := range []byte{0, 1, 170, 175, 181, 182, 183, 184, 255} {
+			v := *pkt
+			v[3] |= 0x30
+			v[4] = l
+			whole := tight(v[:])
+			if !d.ro("psi.NewPAT(packet, adaptation field squeezed in)", whole, func() {
+				if p, e := psi.NewPAT(whole); e == nil && p != nil {
+					p.NumPrograms()
+					p.ProgramMap()
+					p.SPTSpmtPID()
+				}
+			}) {
+				return false
+			}
+		}
+	}
 	if !d.ro("psi.IsPMT", buf, func() { psi.IsPMT(pkt, pat); psi.IsPMT(pkt, nil) }) {
 		return false
 	}
